@@ -126,7 +126,11 @@ class Cache:
                 uid: Col(name, node, uid, val.dtype(), val.ftype(agg_is_window=True))
                 for name, val, uid in zip(node.names, node.values, node.uuids, strict=True)
             }
-            res.name_to_uuid = self.name_to_uuid | {name: uid for name, uid in zip(node.names, node.uuids, strict=True)}
+            # overwritten columns move to the end (like in the backends)
+            new_names = set(node.names)
+            res.name_to_uuid = {name: uid for name, uid in self.name_to_uuid.items() if name not in new_names} | {
+                name: uid for name, uid in zip(node.names, node.uuids, strict=True)
+            }
             res.uuid_to_name = {uid: name for name, uid in res.name_to_uuid.items()}
 
         elif isinstance(node, verbs.Filter):
